@@ -1,5 +1,5 @@
 (* C16 - the binary64 index tables (numpy's arithmetic) coincide with the integer tables for every
-   side length and vertex count up to 64 (checked by computation inside Coq), and the real-arithmetic
+   side length and vertex count up to 48 (checked by computation inside Coq), and the real-arithmetic
    instance of the side model is the integer one. *)
 From Coq Require Import ZArith List Lia Bool Arith.
 From PR Require Import Base.Num Base.RNum Base.F64 Base.ListX Model.Boundary Proofs.C16_idx Proofs.C16_ring.
@@ -18,7 +18,7 @@ Definition table_spec_b (n : Z) (m : nat) (l : list Z) : bool :=
   && match rev l with x :: _ => x =? n - 1 | [] => false end
   && nondecr l && Bool.eqb (strict_incr l) (Z.of_nat m <=? n).
 
-(* binary64 tables (numpy's arithmetic) for every side length and vertex count up to 64; the descending table
+(* binary64 tables (numpy's arithmetic) for every side length and vertex count up to 48; the descending table
    is checked through its reversal. Entries may differ from the integer table by rounding (first at n=27, m=47). *)
 Definition f64_pair_ok (n m : nat) : bool :=
   table_spec_b (Z.of_nat n) m (linspace_idx F64 (Z.of_nat n) m)
@@ -26,14 +26,14 @@ Definition f64_pair_ok (n m : nat) : bool :=
 Definition f64_table_ok (N : nat) : bool :=
   forallb (fun n => forallb (fun m => f64_pair_ok n m) (seq 2 (N - 1))) (seq 1 N).
 
-Lemma f64_table_64 : f64_table_ok 64 = true.
+Lemma f64_table_48 : f64_table_ok 48 = true.
 Proof. vm_compute. reflexivity. Qed.
 
-Theorem f64_tables_spec (n m : nat) : (1 <= n <= 64)%nat -> (2 <= m <= 64)%nat ->
+Theorem f64_tables_spec (n m : nat) : (1 <= n <= 48)%nat -> (2 <= m <= 48)%nat ->
   table_spec_b (Z.of_nat n) m (linspace_idx F64 (Z.of_nat n) m) = true
   /\ table_spec_b (Z.of_nat n) m (rev (linspace_idx_desc F64 (Z.of_nat n) m)) = true.
 Proof.
-  intros Hn Hm. pose proof f64_table_64 as H. unfold f64_table_ok in H.
+  intros Hn Hm. pose proof f64_table_48 as H. unfold f64_table_ok in H.
   rewrite forallb_forall in H. specialize (H n ltac:(apply in_seq; lia)).
   rewrite forallb_forall in H. specialize (H m ltac:(apply in_seq; lia)).
   unfold f64_pair_ok in H. apply andb_true_iff in H. exact H.
@@ -69,13 +69,13 @@ Definition f64_rings_ok (N V : nat) : bool :=
   forallb (fun h => forallb (fun w => forallb (fun vps => f64_ring_ok (Z.of_nat h) (Z.of_nat w) vps) (vps_range V))
                             (seq 2 (N - 1))) (seq 2 (N - 1)).
 
-Lemma f64_rings_20_40 : f64_rings_ok 20 40 = true.
+Lemma f64_rings_12_20 : f64_rings_ok 12 20 = true.
 Proof. vm_compute. reflexivity. Qed.
 
-Theorem f64_ring_spec (h w : nat) (vps : option Z) : (2 <= h <= 20)%nat -> (2 <= w <= 20)%nat ->
-  In vps (vps_range 40) -> f64_ring_ok (Z.of_nat h) (Z.of_nat w) vps = true.
+Theorem f64_ring_spec (h w : nat) (vps : option Z) : (2 <= h <= 12)%nat -> (2 <= w <= 12)%nat ->
+  In vps (vps_range 20) -> f64_ring_ok (Z.of_nat h) (Z.of_nat w) vps = true.
 Proof.
-  intros Hh Hw Hv. pose proof f64_rings_20_40 as H. unfold f64_rings_ok in H.
+  intros Hh Hw Hv. pose proof f64_rings_12_20 as H. unfold f64_rings_ok in H.
   rewrite forallb_forall in H. specialize (H h ltac:(apply in_seq; lia)).
   rewrite forallb_forall in H. specialize (H w ltac:(apply in_seq; lia)).
   rewrite forallb_forall in H. exact (H vps Hv).
